@@ -86,7 +86,8 @@ CONSTANTS MaxRoots,   \* enumeration bound on the number of roots on the command
 (*           and, for a single root, the <root>.html symlink, which then   *)
 (*           dangles).  expand: --sidebar-expand-depth=2 (the sidebar has  *)
 (*           numbered expandable items).  permute: listing orders other    *)
-(*           than the sorted one are explored for this variant             *)
+(*           than the sorted one, and the second-run-of-a-process case,    *)
+(*           are explored for this variant                                 *)
 Universe == IF Source = "enum" THEN JsonDeserialize(IOEnv.C18_UNIVERSE)
             ELSE [roots |-> <<>>, dirs |-> <<>>, sites |-> <<>>, variants |-> <<>>]
 \* observed runs: <<[reg, u, roots, named, setOrder, listing (seq aligned with u.dirs), outdir]>>
@@ -155,7 +156,7 @@ Init ==
           /\ u = Universe
           /\ roots = EnumProjects[pid].roots /\ named = EnumProjects[pid].named /\ var = EnumProjects[pid].var
           /\ outdir \in {"fresh"} \cup (IF Len(EnumProjects[pid].roots) <= ReuseUpTo THEN {"reused"} ELSE {})
-                                   \cup (IF Len(EnumProjects[pid].roots) <= SameProcUpTo THEN {"sameproc"} ELSE {})
+                                   \cup (IF Len(EnumProjects[pid].roots) <= SameProcUpTo /\ EnumProjects[pid].var.permute THEN {"sameproc"} ELSE {})
      ELSE /\ pid \in 1..NProjects
           /\ u = FileRuns[pid].u
           /\ roots = FileRuns[pid].roots /\ named = FileRuns[pid].named /\ var = FileRuns[pid].var
